@@ -419,6 +419,40 @@ func (j *mulJudge) genCase(r *gen.RNG, i int) (ref.Bits, ref.Bits) {
 			return ref.Encode(sx, clampCoef(new(big.Int).Quo(q, cy)), r.Range(-300, 300)), ref.Encode(sy, cy, r.Range(-300, 300))
 		}
 		return ref.Encode(sx, t, r.Range(-300, 300)), ref.Encode(sy, cy, r.Range(-300, 300))
+	case 14: // exact short result whose exponent exceeds 6111: it is representable only by padding the coefficient
+		// with zeros, and the padded coefficient a*10^k lands next to the largest coefficient / an internal threshold
+		T := r.ThresholdFull()
+		if r.Bool() {
+			T = new(big.Int).Sub(ref.Cmax, new(big.Int).SetUint64(r.U64()>>uint(r.Intn(64))))
+		}
+		k := r.Range(1, 33)
+		a := new(big.Int).Quo(T, ref.Pow10(k))
+		a.Add(a, big.NewInt(int64(r.Pick(0, 0, 0, 1, -1))))
+		if a.Sign() <= 0 {
+			a = big.NewInt(1)
+		}
+		k += r.Pick(0, 0, 0, 1, -1)               // one step beyond / short of the last admissible padding
+		jz := r.Pick(0, 1, 5, 19, 20, 21, 25, 33) // the other operand is 10^jz written out: wide when jz >= 20
+		b := ref.Pow10(jz)
+		if r.Chance(1, 4) {
+			// or a small exact factor split off the short coefficient
+			f := big.NewInt(int64(r.Pick(2, 4, 5, 8, 10, 16, 25, 100)))
+			if nb := new(big.Int).Mul(b, f); new(big.Int).Mod(a, f).Sign() == 0 && nb.Cmp(ref.Cmax) <= 0 {
+				a.Quo(a, f)
+				b = nb
+			}
+		}
+		if r.Bool() {
+			// product: e1 + e2 + jz = 6111 + k
+			if e1, e2, ok := splitExp(r, ref.MaxExp+k-jz, false); ok {
+				return ref.Encode(sx, a, e1), ref.Encode(sy, b, e2)
+			}
+		} else {
+			// quotient: e1 - e2 - jz = 6111 + k
+			if e1, e2, ok := splitExp(r, ref.MaxExp+k+jz, true); ok {
+				return ref.Encode(sx, a, e1), ref.Encode(sy, b, e2)
+			}
+		}
 	case 12: // both wide (256-bit product, 1e19 reduction loop)
 		a := new(big.Int).Sub(ref.Cmax, r.BigBelow(ref.Pow10(r.Range(1, 33))))
 		b := new(big.Int).Sub(ref.Cmax, r.BigBelow(ref.Pow10(r.Range(1, 33))))
